@@ -1,16 +1,46 @@
 """C09 configuration for /verif/check."""
 PROP = dict(
         module='kernel', pkg='mm/pmm', pkgname='pmm', harness=['pmm/c09_test.go'],
+        # the spinlock's yieldFn lives in package sync: rounds run with nil (the kernel's configuration) and runtime.Gosched
         extra_overlay={'kernel/sync/zz_verif_c09_export.go': 'pmm/c09_sync_export.go'},
-        # VERIF_N = number of seeded rounds after the 30 deterministic boundary rounds; every worker performs a fixed
-        # number of operations per round (VERIF_C09_OPS), so the verdict never depends on machine speed
-        n=dict(quick=20, thorough=400),
-        env={'VERIF_C09_OPS': '4000'},
+        # VERIF_N = number of seeded rounds after the 30 deterministic boundary rounds. Every worker performs a fixed number
+        # of operations per round (VERIF_C09_OPS, x4 in the thorough tier), so the verdict never depends on machine speed;
+        # the watchdog (VERIF_C09_STUCK_S, default 120 s without any worker completing an operation) only turns a hang
+        # into an observation.
+        n=dict(quick=20, thorough=300),
+        env={'VERIF_C09_OPS': '30000'},
         timeout=dict(quick=900, thorough=3000),
         nontrivial=r'^(round |a \| \d|f \d+ \| [012])',
-        rule='TODO',
-        trusted=[],
-        assumptions=[],
-        level_text='TODO',
-        level_note='TODO',
+        rule='one evaluation = one line of the harness trace: a sequential AllocFrame/FreeFrame/stats call on the real '
+             'BitmapAllocator replayed through the Lean pmm model (a | frame, f x | code, s | dump), a lock-leak probe after '
+             'each of them (lk | 0/1), or one multi-core stress round (round <workers> <ops each> <yield mode> <GOMAXPROCS> p '
+             '<pool sizes> | <duplicates> <lost> <stuck> <totals_ok> t <total> <reserved> <free at start> <held at end> '
+             '<drained> c <counters>) judged by the oracle from the raw counters and the model state; distinct = by hash of '
+             'the line; non-trivial = a stress round, a successful allocation or a free',
+        trusted=['mutual exclusion of the real spinlock (C08) and sequentially consistent interleaving of lock-protected code '
+                 '(Go memory model, DRF-SC); hardware memory ordering and true parallelism are covered by the stress run only',
+                 'the skeleton extractor in harness/pmm/c09_test.go (go/parser over bitmap_allocator.go; fails on any AST node, '
+                 'field or call it does not understand); its classification of allocator state: freeCount, reservedPages, '
+                 'totalPages and bitmap words are lock-protected, pools/startFrame/endFrame/freeBitmap headers are init-only '
+                 '(checked: written only by setupPoolBitmaps)',
+                 'the code between Acquire and Release computes Pmm.alloc / Pmm.free: differential testing (C01/C03 and the '
+                 'sequential part of every C09 round)',
+                 'vmm seams (reserveRegionFn/mapFn) scripted, multiboot block built by the harness; export shim '
+                 'harness/pmm/c09_sync_export.go sets sync.yieldFn'],
+        assumptions=['the allocator is initialised (Inv, established by Init: C03) before it is shared',
+                     'callers free only frames they hold (the FreeFrame contract of C01/C03)',
+                     'sequentially consistent interleaving of atomic micro-steps inside critical sections'],
+        level_text='Lean theorems, for any number of threads and every schedule: disciplined_sound + skeletons_disciplined (the '
+                   'lock-discipline skeletons of AllocFrame/FreeFrame REGENERATED from the Go source take the lock exactly once, '
+                   'touch allocator state only while holding it and release it on every return path, for any loop iteration '
+                   'counts), init_only_state, linearizable (every reachable state of the generic lock-protected-object machine is '
+                   'explained by the sequential run of the operations in acquire order), and for the pmm bitmap model with '
+                   'callers that free only what they hold: no_duplicate, freed_is_reusable, totals_after_quiescence, no_deadlock. '
+                   'Plus a multi-core stress run of the real code (ownership table with CAS, watchdog, quiescence accounting, '
+                   'drain) and differential replay of sequential histories.',
+        level_note='Proof is about the model: a lock that admits one holder (C08, trusted here), sequentially consistent '
+                   'interleaving, Pmm.alloc/Pmm.free as critical-section bodies. Hardware memory ordering / true parallelism are '
+                   'outside the model (trusted: C08 mutual exclusion, Go memory model DRF-SC) and are covered only by the stress '
+                   'run. "No call blocks forever" is proved as deadlock freedom + finite critical sections, not starvation '
+                   'freedom. The tie of the skeletons is syntactic (go/parser), the tie of the bodies is differential testing.',
 )
